@@ -437,8 +437,11 @@ class Check:
             ev["coverage"].pop("states")
             ev["coverage"].pop("transitions")
             ev["coverage"].pop("traces_validated_against_impl", None)
-        os.makedirs(os.path.join(ROOT, "evidence"), exist_ok=True)
-        with open(os.path.join(ROOT, "evidence", f"{self.pid}.json"), "w") as f:
+        # extra checks (ids starting with X: growth of the specification beyond the listed properties) are not in the
+        # manifest; their record goes to the scratch directory
+        evdir = os.path.join(ROOT, "evidence") if not self.pid.startswith("X") else os.path.join(WORK, "evidence-extra")
+        os.makedirs(evdir, exist_ok=True)
+        with open(os.path.join(evdir, f"{self.pid}.json"), "w") as f:
             json.dump(ev, f, indent=1, sort_keys=True)
         if tool_error:
             log(f"TOOL ERROR: {tool_error}")
